@@ -45,6 +45,12 @@ type SVal struct {
 	Q    bool
 }
 
+// TVal is a struct value with indirection (slice, map, omitted fields).
+type TVal struct {
+	Tags []string       `json:",omitempty"`
+	M    map[string]int `json:",omitempty"`
+}
+
 // Config fixes one configuration of tree + environment + finite universe.
 type Config struct {
 	Name     string
